@@ -135,6 +135,25 @@ type world struct {
 
 func newWorld() *world {
 	ctx := NewBrokerContext(log.New(io.Discard, "", 0))
+	if !keepMetricsOrder {
+		// An earlier bridge list was in force before the one the harnesses use, with other relay URLs for the
+		// same bridges and with the bridge the harnesses call "absent" still listed; clients named each of its
+		// bridges (nobody was waiting: they were told so).  Whatever the broker learnt then must not outlive
+		// the installation of the next list.  (Skipped in the metrics harnesses, which count every poll.)
+		old := fmt.Sprintf("{\"displayName\":\"b1\", \"webSocketAddress\":\"wss://old-1.example/\", \"fingerprint\":%q}\n{\"displayName\":\"b2\", \"webSocketAddress\":\"wss://old-2.example/\", \"fingerprint\":%q}\n{\"displayName\":\"retired\", \"webSocketAddress\":\"wss://retired.example/\", \"fingerprint\":%q}\n",
+			fpDefault, fpB2, fpAbsent)
+		if err := ctx.InstallBridgeListProfile(strings.NewReader(old), "", ""); err != nil {
+			panic(err)
+		}
+		for _, fp := range []string{"", fpB2, fpAbsent, fpB3} {
+			member := ""
+			if fp != "" {
+				member = fmt.Sprintf(",\"fingerprint\":%q", fp)
+			}
+			var resp []byte
+			(&IPC{ctx}).ClientOffers(messages.Arg{Body: []byte("1.0\n{\"offer\":\"earlier\",\"nat\":\"unknown\"" + member + "}")}, &resp)
+		}
+	}
 	bl := fmt.Sprintf("{\"displayName\":\"b1\", \"webSocketAddress\":%q, \"fingerprint\":%q}\n{\"displayName\":\"b2\", \"webSocketAddress\":%q, \"fingerprint\":%q}\n",
 		urlB1, fpDefault, urlB2, fpB2)
 	// records with members missing, null or reordered (each line is a record of its own)
